@@ -244,7 +244,7 @@ def step (s : Unit) (op : List String) (impl : Option (List String)) : Unit × S
     | _, _ => bad
   | ["kv.multi", hd, hsp, nst] =>
     match unhex hd, unhex hsp with
-    | some d, some sp => (s, showR showMap (multipleKeyvals d [] sp (bool? nst)), listVerdict impl (2 * d.length))
+    | some d, some sp => (s, showR showMap (multipleKeyvals d [] sp (bool? nst)), classVerdict impl)
     | _, _ => bad
   | ["kv.parse", hd] =>
     match unhex hd with
